@@ -61,7 +61,7 @@ def cases(rng, tier):
         for red in rng.sample(RED, 3):
             out.append({"kind": "reduce", "a": a, "f": red, "dta": rng.choice(gens.DTYPES)})
         out.append({"kind": "reduce", "a": a, "f": "histogram", "dta": rng.choice(["int64", "uint8", "float64", "int16"]),
-                    "hist": {"bins": rng.choice([1, 2, 3, 5, [0, 1, 2], [0.5, 1.5], [0, 1, 3], [1, 2]]), "range": rng.choice([None, None, [0, 1], [1, 2], [0.5, 2.2], [0, 4], [-1, 1]])}})
+                    "hist": {"bins": rng.choice([1, 2, 3, 5, None, None, [0, 1, 2], [0.5, 1.5], [0, 1, 3], [1, 2]]), "range": rng.choice([None, None, [0, 1], [1, 2], [0.5, 2.2], [0, 4], [-1, 1]])}})
         # reductions over NEIGHBOURING extreme values (2**63-2, 2**63-1, ...): sums that leave the 64-bit range, means of huge values
         out.append({"kind": "reduce", "a": a, "f": rng.choice(["sum", "mean", "max", "np.sum", "np.mean"]), "dta": rng.choice(["int64", "uint64", "int32", "uint8", "float64"]), "vm": "near"})
         out.append({"kind": "sum", "a": a, "dta": "int64"})
@@ -153,13 +153,19 @@ def distribution(ps):
     return d
 
 
+def _axform(p):
+    """how a reduction of the (one-dimensional) array spells its axis: not at all, axis=-1, axis=0, or positionally"""
+    v = (len(p["a"]) + sum(p["a"]) + len(p.get("f", ""))) % 4
+    return [((), {}), ((), {"axis": -1}), ((), {"axis": 0}), ((-1,), {})][v]
+
+
 def _hist_kw(p):
     """bins and range of a histogram case: the default of the first rounds, or bins / explicit edges / a range that leaves
     part of the data outside on either side"""
     h = p.get("hist")
     if not h:
         return {"bins": 3, "range": (0, 3)}
-    kw = {"bins": h["bins"]}
+    kw = {"bins": h["bins"]} if h["bins"] is not None else {}      # (None: numpy's default number of bins)
     if h.get("range") is not None:
         kw["range"] = tuple(h["range"])
     return kw
@@ -214,9 +220,10 @@ def run_impl(p):
                 if fn == "histogram":
                     h, e = np.histogram(x, **_hist_kw(p))
                     return (h, e)
+                ax = _axform(p)
                 if fn.startswith("np."):
-                    return getattr(np, fn[3:])(x)
-                return getattr(x, fn)()
+                    return getattr(np, fn[3:])(x, *ax[0], **ax[1])
+                return getattr(x, fn)(**ax[1]) if not ax[0] else getattr(x, fn)(axis=ax[0][0])
             uf = getattr(np, p["f"])
             if p.get("predecode"):
                 # the operand has been decoded / printed before the operation
